@@ -239,6 +239,8 @@ def gen_rep(R, d, opts):
     if r < 0.5:
         return a
     mn, mx = R.choice([(0, None), (1, None), (0, 1), (2, 2), (1, 2), (2, None), (0, 2), (1, 3), (3, 3)])
+    if isinstance(a, Group) and (mn >= 2 or (mx or 0) >= 2):
+        mn, mx = R.choice([(0, None), (1, None), (0, 1)])   # counted repetition of a compound multiplies the DFA
     lazy = R.random() < 0.25
     if isinstance(a, Dot) and mx is None and not lazy and not opts.get('greedy_dot', False):
         lazy = True
